@@ -15,7 +15,7 @@ func init() {
 	register("C18", propMeta{
 		Level: "other",
 		Explanation: "Loop structure of ProcessBulk decided over all paths through one iteration (hence for every sequence of elements, actions and outcomes): R18a every path from the loop header back to it, or to a return inside the loop, performs exactly one append to the result slice (directly or through the failure literal), and every return hands out that slice; R18b after a failure append the loop continues only through the true edge of continueOnFailure; " +
-			"R18c the loop is a `range` over the bulk parameter itself (index −1,+1), contains no go statement, and backend calls are direct; R18d the failure literal sets the failure flag on every path and it is the value returned as second result; bulkHandler writes status 400 on every path where that flag may be true before encoding the body. R18f each element is decoded into a value allocated in its iteration; R18i the readers of boolean query parameters (api.QueryParamBool reads continueOnFailure) read none of the negative spellings 0/false/no/off as true; R18h the bulk handler returns after an error answer: on no path does an error responder precede ProcessBulk or a second answer. R18g no argument of a backend.Ledger call made in the loop reads a local that is declared before the loop and assigned inside it without being re-assigned before the call in every iteration (an element never runs with the idempotency key or parameters left by the elements before it).",
+			"R18c the loop is a `range` over the bulk parameter itself (index −1,+1), contains no go statement, and backend calls are direct; R18d the failure literal sets the failure flag on every path and it is the value returned as second result; bulkHandler writes status 400 on every path where that flag may be true before encoding the body. R18f each element is decoded into a value allocated in its iteration; R18j the keys the OpenAPI document declares for every bulk element (V2BaseBulkElement: action, ik) are json keys of v2.Element; R18i the readers of boolean query parameters (api.QueryParamBool reads continueOnFailure) read none of the negative spellings 0/false/no/off as true; R18h the bulk handler returns after an error answer: on no path does an error responder precede ProcessBulk or a second answer. R18g no argument of a backend.Ledger call made in the loop reads a local that is declared before the loop and assigned inside it without being re-assigned before the call in every iteration (an element never runs with the idempotency key or parameters left by the elements before it).",
 		NotDecided:  "what each backend call does; the per-element error code mapping.",
 		Trusted:     []string{"encoding/json decoding of the bulk body keeps element order"},
 	}, runC18)
@@ -55,6 +55,7 @@ func runC18(c *Ctx) {
 	ruleFreshDecode(c, "R18f")
 	ruleLoopCarriedArgs(c, "R18g", 4)
 	ruleBoolReaders(c, "R18i", 1)
+	ruleBulkElementKeysDocumented(c, "R18j")
 	ruleAnswerEndsHandler(c, "R18h", func(fn *ssa.Function) bool { return strings.Contains(strings.ToLower(fn.Name()), "bulk") }, 1)
 	const rule = "R18a"
 	fn := c.MustFn(rule, pkgV2, "ProcessBulk")
